@@ -610,8 +610,14 @@ func (t *sseClientTransport) sendRequestInternal(ctx context.Context, req *JSONR
 	idStr := requestIDKey(req.ID)
 	responseChan := make(chan *json.RawMessage, 1)
 
-	// Register the response channel.
+	// Register the response channel. close() marks the transport closed before it sweeps the
+	// table under this lock, so a request that registers after the sweep sees the mark here
+	// (the check above may have been made before the stream ended).
 	t.responsesMu.Lock()
+	if t.closed.Load() {
+		t.responsesMu.Unlock()
+		return nil, errors.New("transport is closed")
+	}
 	t.responses[idStr] = responseChan
 	t.responsesMu.Unlock()
 
